@@ -799,6 +799,11 @@ def concolic_check(con, rec):
     if getattr(con, 'no_native', False):
         return 'skipped', 'ghost state (clock): no concrete replay'
     env, r = model_env(rec.pc + rec.axioms, extra_vars=list(input_vars(rec.args_in).values()))
+    if env is None and r['verdict'] != 'unsat':
+        # the axioms only constrain uninterpreted symbols, which are evaluated by their real interpretation below:
+        # a model of the path condition alone is as good a test input (it is re-checked against the path)
+        light = [t for t in rec.pc if not any(x.op == 'app' for x in tm.subterms(t))]
+        env, r = model_env(light, extra_vars=list(input_vars(rec.args_in).values()), solvers=('z3', 'cvc5f', 'cvc5'))
     if env is None:
         return 'skipped', 'no model (%s)' % r['verdict']
     for v in input_vars(rec.args_in).values():
